@@ -98,6 +98,21 @@ def run(prop, tier, seed, ctx):
                       "recorded history rejected at event %d by clause %s" % (pos, clause),
                       {"seed": t["seed"], "events": t["events"], "rejected_at": pos, "clause": clause,
                        "errors": t.get("errors")})
+    # ---------------- 3b: the repository's own test-suite, recorded through the guarded hooks
+    from engine.suite import record_suite
+    st = record_suite()["resolver"]
+    if len(st) < 50:
+        raise MachineryError("only %d resolver traces recorded from the test-suite" % len(st))
+    acc_s, rej_s, sres = tlc.validate_traces("TraceResolver", "TraceResolver.cfg", [t["events"] for t in st], timeout=600)
+    ctx.add_tlc(sres, "trace validation of %d reports resolved by the repository's own test-suite" % len(st))
+    ctx.cov["traces_validated_against_impl"] += len(st)
+    ctx.count(len(st), ("suite:%s:%d" % (t["test"], i) for i, t in enumerate(st) if len(t["events"]) > 2))
+    for tid, pos, mask in rej_s:
+        names = [n for b, n in BITS.items() if int(mask) & b] or ["unmatched-event"]
+        mine = [n for n in names if n in CLAUSES[prop]]
+        if mine:
+            t = st[tid - 1]
+            ctx.violation("%s|suite|%s" % (prop, "+".join(mine)), "report resolved in %s rejected by clause %s" % (t["test"], mine), t)
     # ---------------- 4: binding self-tests
     # (a) a corrupted observation must be rejected
     rng = random.Random(seed)
